@@ -97,17 +97,6 @@ end Glom.Mut
 namespace Glom.C11
 open Glom Glom.Mut
 
-theorem applyAssignHandler_exc {env h hn dest arg v e}
-    (hh : applyAssignHandler env h hn dest arg v = .error e) : e.cls ∈ assignHandlerExcs := by
-  unfold applyAssignHandler at hh
-  split at hh
-  · rcases pySetitem_exc hh with h1 | h1 | h1 <;> simp [h1, assignHandlerExcs, exc]
-  · split at hh
-    · rcases pySetSeqItem_exc hh with h1 | h1 | h1 | h1 <;> simp [h1, assignHandlerExcs, exc]
-    · split at hh
-      · rcases pySetattr_exc hh with h1 | h1 | h1 <;> simp [h1, assignHandlerExcs, exc]
-      · injection hh with hh; subst hh; simp [assignHandlerExcs, exc]
-
 theorem applyAssignHandler_frame {env h hn dest arg v w}
     (hh : applyAssignHandler env h hn dest arg v = .ok w) : FrameAt h w.heap dest := by
   unfold applyAssignHandler at hh
@@ -231,49 +220,62 @@ theorem wrote_logExt {base : Nat} {st : St} {w : Wr} {a : Nat} {l : List Ev} (hc
 
 /-! ### Part B: `_assign_op` (table-driven) is the assignment the step denotes -/
 
+theorem assignKind_parts {env : MEnv} {op kind : String} (h : assignKind env op kind = true) :
+    ∃ caught raises, branchOf env.assignBr op = some (kind, caught, raises) := by
+  unfold assignKind at h
+  cases hb : branchOf env.assignBr op with
+  | none => simp [hb] at h
+  | some r =>
+    obtain ⟨k, c, ra⟩ := r
+    simp [hb] at h
+    exact ⟨c, ra, by rw [h]⟩
+
 theorem WF_parts {env : MEnv} (h : WF env = true) :
     C01.WF env.t = true ∧
     C01.dispatchOf env.t "x" = some ("star", []) ∧
     C01.dispatchOf env.t "X" = some ("starstar", []) ∧
-    branchOf env.assignBr "[" = some ("setitem", [], "") ∧
-    branchOf env.assignBr "." = some ("setattr", [], "") ∧
-    (∃ caught, branchOf env.assignBr "P" = some ("handler", caught, "PathAssignError") ∧
-      ∀ n ∈ assignHandlerExcs, C01.caughtBy env.t caught ⟨n⟩ = true) := by
+    assignKind env "[" "setitem" = true ∧
+    assignKind env "." "setattr" = true ∧
+    assignKind env "P" "handler" = true := by
   simp only [WF, Bool.and_eq_true, beq_iff_eq] at h
   obtain ⟨⟨⟨⟨⟨⟨⟨_, h1⟩, h2⟩, h3⟩, h4⟩, h5⟩, h6⟩, _⟩ := h
-  refine ⟨h1, h2, h3, h4, h5, ?_⟩
-  split at h6
-  · rename_i caught heq
-    exact ⟨caught, heq, by simpa [List.all_eq_true] using h6⟩
-  · contradiction
+  exact ⟨h1, h2, h3, h4, h5, h6⟩
 
-/-- how a failing primitive leaves `_assign_op`: only the plain-segment branch wraps -/
-def assignErr (op : String) (arg : Val) (e : PyExc) : MErr :=
-  if op == "P" then .passign e arg else .raised e
+/-- how a failing primitive leaves `_assign_op`: a PathAssignError when the branch's `except`
+    clause (extracted from the source) names the exception's class, the exception itself otherwise -/
+def assignErr (env : MEnv) (op : String) (arg : Val) (e : PyExc) : MErr :=
+  match branchOf env.assignBr op with
+  | some (_, caught, _) => if C01.caughtBy env.t caught e then .passign e arg else .raised e
+  | none => .badSpec
 
 theorem assignOp_eq {env : MEnv} (hwf : WF env = true) {op : String} (hop : finalOk op = true)
     (arg v : Val) (st : St) (dest : Val) :
     assignOp env op arg v st dest =
       match refAssignOp env st.heap op dest arg v with
       | some (.ok w) => (st.wrote w, .ok ())
-      | some (.error e) => (st, .error (assignErr op arg e))
+      | some (.error e) => (st, .error (assignErr env op arg e))
       | none => (st, .error .unregistered) := by
-  obtain ⟨_, _, _, hb1, hb2, caught, hb3, hc⟩ := WF_parts hwf
+  obtain ⟨_, _, _, hk1, hk2, hk3⟩ := WF_parts hwf
+  obtain ⟨c1, r1, hb1⟩ := assignKind_parts hk1
+  obtain ⟨c2, r2, hb2⟩ := assignKind_parts hk2
+  obtain ⟨c3, r3, hb3⟩ := assignKind_parts hk3
   simp only [finalOk, Bool.or_eq_true, beq_iff_eq] at hop
   rcases hop with (rfl | rfl) | rfl
   · simp only [assignOp, hb1, refAssignOp, assignErr]
-    cases pySetitem env st.heap dest arg v <;> simp [C01.caughtBy]
+    cases pySetitem env st.heap dest arg v with
+    | ok w => simp
+    | error e => by_cases hc : C01.caughtBy env.t c1 e = true <;> simp [hc]
   · simp only [assignOp, hb2, refAssignOp, assignErr]
-    cases pySetattr env st.heap dest arg v <;> simp [C01.caughtBy]
+    cases pySetattr env st.heap dest arg v with
+    | ok w => simp
+    | error e => by_cases hc : C01.caughtBy env.t c2 e = true <;> simp [hc]
   · simp only [assignOp, hb3, refAssignOp, assignErr]
     cases hn : nearestHandler env.t.ct env.assignReg (dest.clsName st.heap) with
     | none => simp
     | some n =>
       cases hr : applyAssignHandler env st.heap n dest arg v with
       | ok w => simp [hr]
-      | error e =>
-        have := hc e.cls (applyAssignHandler_exc hr)
-        simp [hr, this]
+      | error e => by_cases hc : C01.caughtBy env.t c3 e = true <;> simp [hr, hc]
 
 end Glom.C11
 
